@@ -69,6 +69,12 @@ ValuesOf(c) ==
                                                               /\ Len(q) >= c.min
                                                               /\ \A i, j \in DOMAIN q : i < j => q[i][1] # q[j][1]}}
 
+\* a deeper value space for the thorough tier: sets over every atom (64-bit extremes, large reals, keyword-like strings)
+DeepValuesOf(c) ==
+    IF ColKind(c) # "set" THEN {}
+    ELSE LET hi == IF c.max = -1 THEN 2 ELSE IF c.max > 2 THEN 2 ELSE c.max
+         IN  {NV("set", s) : s \in {q \in InjSeqs(NativeAtoms(c.key, c.enum), hi) : Len(q) >= c.min}}
+
 \* ---- the wire encoding the mapper must produce
 EncAtom(t, a) == IF t = "uuid" THEN Uuid(a.s) ELSE a
 Enc(c, v) ==
